@@ -55,6 +55,8 @@ def project(mgx: Exec, npx: Exec, order: list[int], want_np=True) -> dict:
             "gdt": "none" if g is None else str(getattr(g, "dtype", type(g).__name__)),
             "gnd": bool(g is None or type(g) is np.ndarray),
             "dt": str(t.dtype),
+            "wr": bool(t.data.flags.writeable),
+            "nops": len(t._ops),
         }
         if want_np:
             a = npx.H[h]
@@ -80,7 +82,8 @@ def project(mgx: Exec, npx: Exec, order: list[int], want_np=True) -> dict:
         for b in live:
             if np.shares_memory(grads[a], H[b].data):
                 gdata.append([a, b])
-    return {"t": per, "share": share, "np_share": np_share, "gshare": gshare, "gdata": gdata}
+    return {"t": per, "share": share, "np_share": np_share, "gshare": gshare, "gdata": gdata,
+            "track": bool(_track.TRACK_GRAPH), "guard": bool(_mem.MEM_GUARD)}
 
 
 def _step(x: Exec, s: dict):
@@ -106,21 +109,30 @@ def run_program(prog: list[dict]) -> list[dict] | None:
         order: list[int] = []
         lines = []
         for s in prog:
+            snap = None
+            if s["k"] in ("setitem", "aug", "uout"):
+                snap = {h: a.copy() for h, a in npx.H.items()}
             with np.errstate(all="ignore"):
                 e_np = _step(npx, s)
                 e_mg = _step(mgx, s)
+            if e_mg != "none" and e_np == "none":
+                # MyGrad refused a statement NumPy accepted: the twin is rolled back so that it keeps mirroring
+                # the program "with the failing statement removed" (C13)
+                if snap is not None:
+                    for h, a in snap.items():
+                        if npx.H[h].flags.writeable:
+                            npx.H[h][...] = a
+                elif s["k"] in ("op", "leaf") and s.get("h") in npx.H:
+                    del npx.H[s["h"]]
             if "h" in s and s["k"] in ("leaf", "op") and s["h"] not in order and s["h"] in mgx.H:
                 order.append(s["h"])
-            if e_np != "none" and e_mg == "none":
-                # the twin failed but MyGrad did not: report as an exception disagreement
-                e_mg = "np:" + e_np
             try:
-                obs = project(mgx, npx, order, want_np=(e_np == "none"))
+                obs = project(mgx, npx, order)
             except OutOfModel:
                 return None
             lines.append({"stmt": s, "obs": obs, "exc": e_mg, "exc_np": e_np})
-            if e_mg != "none":
-                break
+            if e_mg != "none" and s["k"] == "backward":
+                break  # an aborted backward leaves gradients unspecified (C09): the trace ends here
         return lines
     finally:
         mgx = npx = None
